@@ -182,6 +182,30 @@ func registerZZ(vm *VM) {
 	z("Dec", func(vm *VM, _ *frame, a []Value) Value {
 		return mkStr([]Atom{{Kind: aDec, T: vm.bigGet(a[0], "Dec")}})
 	})
+	z("Freeze", func(vm *VM, _ *frame, a []Value) Value {
+		vm.Freeze([]Value(a[0].(Slice)))
+		return nil
+	})
+	z("FrozenWrites", func(vm *VM, _ *frame, a []Value) Value {
+		w := vm.FrozenWrites()
+		for _, x := range w {
+			vm.notes = append(vm.notes, "frozen-write: "+x)
+		}
+		return int64(len(w))
+	})
+	z("MapOrder", func(vm *VM, _ *frame, a []Value) Value {
+		if vm.ConcreteValues == nil {
+			vm.mapOrder = a[0].(bool)
+		}
+		return nil
+	})
+	z("Concurrently", func(vm *VM, _ *frame, a []Value) Value {
+		n := vm.concInt(a[0], "Concurrently n")
+		for i := 0; i < n; i++ {
+			vm.Call(a[1], []Value{int64(i)})
+		}
+		return nil
+	})
 	b2 := func(name string, f func(a, b *smt.Term) *smt.Term) {
 		z(name, func(vm *VM, _ *frame, a []Value) Value {
 			return fromBoolTerm(f(toTerm(a[0]), toTerm(a[1])))
